@@ -196,3 +196,20 @@ func LegalFrom(ev, s string) (dst string, ok bool) {
 	}
 	return "", false
 }
+
+// OpenTransition returns the transition of env that has started and not yet finished according to the forwarded events ("" if none).
+func (w *World) OpenTransition(env string) string {
+	evs := w.EnvEvents(env)
+	for i := len(evs) - 1; i >= 0; i-- {
+		switch evs[i].Message {
+		case "transition completed successfully", "transition error", "transition impossible":
+			return ""
+		case "transition starting":
+			return evs[i].Transition
+		}
+		if evs[i].Transition == "DESTROY" {
+			return "DESTROY"
+		}
+	}
+	return ""
+}
